@@ -58,14 +58,11 @@ theorem mok_emitResults : ∀ (f : Nat) (s : Sess), MOK s.m (Sess.emitResults f 
   | f + 1, s => by
     simp only [Sess.emitResults]
     split
-    · have k1 := popData_keeps s.m
-      split
-      · rename_i v m1 h
-        rw [h] at k1
-        exact mok_mono (mle_same k1.1 k1.2 : MLe s.m (({ s with m := m1 } : Sess).emit (Mach.loadValueOp v)).m)
-          (mok_emitResults f (({ s with m := m1 } : Sess).emit (Mach.loadValueOp v)))
-      · rename_i e m1 h; rw [h] at k1; exact mle_same k1.1 k1.2
-      · rename_i e m1 h; rw [h] at k1; exact mle_same k1.1 k1.2
+    · split
+      · rename_i v rest hd
+        exact mok_mono (mle_same rfl rfl : MLe s.m (({ s with m := { s.m with ds := rest } } : Sess).emit (Mach.loadValueOp v)).m)
+          (mok_emitResults f (({ s with m := { s.m with ds := rest } } : Sess).emit (Mach.loadValueOp v)))
+      · exact mle_same rfl rfl
     · exact mle_same rfl rfl
 
 theorem mok_contextClose (fuel : Nat) (s : Sess) : MOK s.m (s.contextClose fuel) := by
@@ -220,9 +217,10 @@ theorem buildSource_meter (fuel : Nat) (mode : Mode) (toks : List Tok) (s : Sess
     intro h1
     have h1' : MLe s.m s2.m := ⟨h1.limit.trans e0.2, e0.1 ▸ h1.mono, fun N hN hm => h1.bound N (e0.2 ▸ hN) (e0.1 ▸ hm)⟩
     simp only
-    have h2 := mok_contextClose fuel { s2 with constUndo := s2.constUndo.drop (s2.constUndo.length - s.constUndo.length) }
+    have h2 := mok_contextClose fuel { s2 with constUndo := s2.constUndo.drop (s2.constUndo.length - s.constUndo.length), m := forgetBuildLog s.m s2.m }
+    have h1' : MLe s.m (forgetBuildLog s.m s2.m) := h1'.trans (mle_same rfl rfl)
     revert h2
-    cases Sess.contextClose fuel { s2 with constUndo := s2.constUndo.drop (s2.constUndo.length - s.constUndo.length) } with
+    cases Sess.contextClose fuel { s2 with constUndo := s2.constUndo.drop (s2.constUndo.length - s.constUndo.length), m := forgetBuildLog s.m s2.m } with
     | ok s3 => intro h2; exact h1'.trans h2
     | err e s3 => intro h2; exact h1'.trans h2
     | panic p s3 => intro h2; exact h1'.trans h2
